@@ -3,7 +3,7 @@ from checks import rapid, plain, fuzz, REPLAY
 CHECK = dict(
     pkg="c14", level="exploration",
     rule="copy scenarios as C03 with default options (image graphs with arbitrary sharing x pairing {same repo, same registry with mount granted/refused, "
-         "two registries, registry<->layout} x arbitrary subset of the closure pre-existing at the target x latency plan); oracle = predicates over the model "
+         "two registries, registry<->layout} x arbitrary subset of the closure pre-existing at the target x latency plan; in a quarter of the cases the model registries release requests in pairs so that the per-child goroutines reach the shared bookkeeping together; registries that negotiate manifest media types on Accept); oracle = predicates over the model "
          "registry's request log: no source GET of a blob the target repo held, each blob GET / committed upload at most once, mount instead of transfer when "
          "granted, retag = exactly one manifest PUT and no blob traffic, identical target = zero state-changing requests. Non-trivial = shared blob/manifest, "
          "non-empty pre-state or granted-mount pairing; distinct by (graph shape, pairing, pre-state, mount features).",
